@@ -463,7 +463,11 @@ Section Monitors2.
             let left_live u :=
               let k := make_url_key u in
               match last_index_ids (before ++ evs) k with Some _ => true | None => false end in
-            if existsb left_live inv then VBad 2 else VOk
+            (* ... and nothing else is deleted: every key removed is the index of an invalidated URI or one of its
+               variants, so another origin's entries (and other URIs of this one) stay cached *)
+            let covered k := existsb (fun u => let ku := make_url_key u in beq k ku || has_prefix (ku ++ [35]) k) inv in
+            let stray := existsb (fun ev => match ev with EvDel k true => negb (covered k) | _ => false end) evs in
+            if existsb left_live inv then VBad 2 else if stray then VBad 3 else VOk
         end
     end.
 
@@ -821,8 +825,17 @@ Section Monitors2.
     let varys := flat_map (fun ev => match ev with EvSetRefs _ l => flat_map (fun r => match r with Some x => [r_vary x] | None => [] end) l | _ => [] end) evs in
     let v := count_distinct beq varys [] in
     let bound := d + d * (v + 1) in
-    if bound <? Z.of_nat (List.length (live_keys evs)) then VBad 1
+    (* invalidation removes what it makes unreachable: every entry the index of an invalidated URI listed
+       before this exchange is gone after it *)
+    let live := live_keys evs in
+    let left_behind :=
+      existsb (fun u => match last_index_ids prefix (make_url_key u) with
+                        | Some ids => existsb (fun id => negb (beq id []) && in_names id live) ids
+                        | None => false
+                        end) (invalidating (q, o)) in
+    if bound <? Z.of_nat (List.length live) then VBad 1
     else if d * (v + 1) <? max_index_len (x_events o ++ x_bg_events o) then VBad 2
+    else if left_behind then VBad 3
     else VOk.
 End Monitors2.
 
